@@ -30,10 +30,16 @@ package parse
 //@   requires[S] bufInv(z) && 0 <= z.pos+n && z.pos+n <= len(z.buf)-1
 //@   ensures[S]  z.pos == old(z.pos)+n
 
+// lsep(c, b1, b2, b3, n): the n-byte sequence decodes (as PeekRune decodes, without validating continuation bytes) to
+// U+2028 or U+2029; for valid UTF-8 that is exactly E2 80 A8 / E2 80 A9
+//@ pred lsep(c, b1, b2, b3, n) := (n == 3 && c % 16 == 2 && b1 % 64 == 0 && (b2 % 64 == 40 || b2 % 64 == 41)) || (n == 4 && c % 8 == 0 && b1 % 64 == 2 && b2 % 64 == 0 && (b3 % 64 == 40 || b3 % 64 == 41))
+//@ pred runeLen(c, rem) := ite(c < 0xC0 || rem < 2, 1, ite(c < 0xE0 || rem < 3, 2, ite(c < 0xF0 || rem < 4, 3, 4)))
 //@ func Input.PeekRune
 //@   requires[S] bufInv(z) && 0 <= pos && z.pos+pos <= len(z.buf)-1
 //@   ensures[S]  1 <= result1 && result1 <= 4
 //@   ensures[S]  z.pos+pos < len(z.buf)-1 ==> z.pos+pos+result1 <= len(z.buf)-1
+//@   ensures[F,C15] @len: result1 == runeLen(z.buf[z.pos+pos], len(z.buf)-1-z.pos-pos)
+//@   ensures[F,C15] @lsep: (result0 == 0x2028 || result0 == 0x2029) <==> lsep(z.buf[z.pos+pos], z.buf[z.pos+pos+1], z.buf[z.pos+pos+2], z.buf[z.pos+pos+3], result1)
 
 //@ func Input.MoveRune
 //@   requires[S] bufInv(z)
@@ -90,15 +96,68 @@ package parse
 //@   ensures[F]  result.err == nil && len(result.buf) == len(s)+1
 //@   ensures[F]  sameBytesExcept(0, 0)
 
+// utf8(r) == 1: the data behind reader r is well-formed UTF-8 (a ghost attribute of the reader). NewInput's clause that
+// the buffer it builds from r is then well-formed is assumed (it depends on io.ReadAll / the reader's Bytes method).
+//@ ghost utf8(r)
+//@ pred isCont(c) := 0x80 <= c && c <= 0xBF
+// wfU8(b): the text in b (NUL-terminated) never starts with a continuation byte, every byte >= 0xC0 is at most 0xF4 and followed inside
+// the text by the continuation bytes its length announces, and F0 is not followed by an overlong second byte
+//@ pred wfU8(b) := (len(b) > 1 ==> !isCont(b[0])) && forall(k, 0, len(b)-1, b[k] >= 0xC0 ==> b[k] <= 0xF4 && k + runeLen(b[k], 4) <= len(b)-1 && isCont(b[k+1]) && (b[k] >= 0xE0 ==> isCont(b[k+2])) && (b[k] >= 0xF0 ==> isCont(b[k+3])) && (b[k] == 0xF0 ==> b[k+1] >= 0x90))
 //@ func NewInput
+//@   assumefacet F
 //@   ensures[S]  result != nil && bufInv(result) && result.pos == 0 && result.start == 0
+//@   ensures[F]  @utf8: utf8(r) == 1 ==> wfU8(result.buf)
+
+// ---- positions (C15)
+// lbEnds(s, lo, hi): number of line breaks (\n, \r not followed by \n, \r\n, U+2028, U+2029) whose last byte lies in s[lo:hi)
+//@ fold lbEnds(s, k, acc) init 0 := acc + ite(s[k] == '\n' || (s[k] == '\r' && s[k+1] != '\n') || ((s[k] == 0xA8 || s[k] == 0xA9) && s[k-1] == 0x80 && s[k-2] == 0xE2), 1, 0)
+// the cursor stands after a complete character: none of the three bytes before it opens a longer sequence
+//@ pred atCharEnd(b, p) := (p >= 1 ==> b[p-1] < 0xC0) && (p >= 2 ==> b[p-2] < 0xE0) && (p >= 3 ==> b[p-3] < 0xF0) && (p >= 1 && b[p-1] == '\r' ==> b[p] != '\n')
+//@ ghost posLine(r, off)
+//@ ghost posCol(r, off)
+//@ func Position
+//@   requires[S] smallInt(offset)
+//@   ensures[S]  line >= 1
+// posLine/posCol name the values Position returns for (reader, offset); NewError's clause says the error carries them
+//@   ensures[F,ghost] @def: line == posLine(r, offset) && col == posCol(r, offset)
+//@   loop 1 invariant l != nil && bufInv(l) && l.start <= l.pos && line >= 1 && smallInt(offset) && line <= l.pos + 1 && offset + l.start == old(offset)
+//@   loop 1 invariant[F] utf8(old(r)) == 1 ==> wfU8(l.buf)
+// for well-formed UTF-8: the line number is one more than the number of breaks that end at or before the cursor, and the
+// cursor never passes the offset and never stops inside a character
+//@   loop 1 invariant[F,C15] wfU8(l.buf) ==> line == 1 + lbEnds(l.buf, 0, l.pos)
+//@   loop 1 invariant[F,C15] wfU8(l.buf) ==> atCharEnd(l.buf, l.pos)
+//@   loop 1 invariant[F,C15] l.pos <= max(old(offset), 0)
+//@   loop 1 invariant[F,C15] wfU8(l.buf) ==> lbEnds(l.buf, 0, l.start) == lbEnds(l.buf, 0, l.pos) || l.start == l.pos
+
+//@ func positionContext
+//@   requires[S] l != nil && bufInv(l) && l.start <= l.pos
+//@   requires[F] @line: wfU8(l.buf) ==> line == 1 + lbEnds(l.buf, 0, l.pos)
+//@   loop 1 invariant bufInv(l) && l.start <= l.pos
+//@   loop 2 invariant rangeindex >= -1 && rangeindex < len(rs)
 
 // ---- errors
+// rlen(r): number of bytes behind a reader built over a byte slice (ghost; defined by the constructors' clauses)
+//@ ghost rlen(r)
+//@ ghost errOff(e)
+//@ extern bytes.NewBuffer
+//@   pure
+//@   ensures[S] result != nil
+//@   ensures[F,ghost] rlen(result) == len(arg0)
+//@ func NewError
+//@   requires[S] smallInt(offset)
+// the offending byte lies inside the input (or is its end)
+//@   requires[F,C15] @inside: 0 <= offset && offset <= rlen(r)
+//@   ensures[S]  result != nil
+//@   ensures[F,C15] @carries: result.Line == posLine(r, offset) && result.Column == posCol(r, offset) && result.Line >= 1
 // NewErrorLexer renders the position of the cursor. It reads l through l.Bytes(), whose capacity is clipped,
 // so the private Input built by Position copies the bytes instead of borrowing a terminator slot.
 //@ func NewErrorLexer
 //@   trusted
+//@   verifybody F
 //@   pure
+//@   ensures[F,C15] @at-cursor: result != nil && result.Line >= 1
+// errOff(e): the offset an error created by NewErrorLexer was reported for (ghost, defined here: the cursor)
+//@   ensures[F,ghost] @off: errOff(result) == l.pos
 //@   requires[S] bufInv(l)
 //@   ensures[S]  result != nil && sameBytes()
 
